@@ -17,11 +17,11 @@ def run(ctx):
     r1 = cc.replay(ctx, binp, cases, "singles")
     demos.append(cc.replay_binding_demo(ctx, binp, cases))
     results = [r1]
-    if not q:
-        cases2, _ = cc.model_cases(ctx, "MC_Codec_thorough.cfg", "two-site family", 3000)
-        results.append(cc.replay(ctx, binp, cases2, "pairs"))
+    cases2, _ = cc.model_cases(ctx, "MC_Codec_pairs_quick.cfg" if q else "MC_Codec_thorough.cfg",
+                               "two-site family (3 targets)" if q else "two-site family (all targets)", 600 if q else 3000)
+    results.append(cc.replay(ctx, binp, cases2, "pairs"))
     # 2. implementation -> model: seeded mutants of valid signed objects, every verdict re-derived by Trace_Codec.tla
-    batches = [(6000, 0)] if q else [(25000, k) for k in range(8)]
+    batches = [(12000, 0)] if q else [(25000, k) for k in range(8)]
     mres = []
     for n, off in batches:
         m = cc.mutants(ctx, binp, n, "b%d" % off, seed_offset=off)
